@@ -41,6 +41,14 @@ pub fn run(cfg: &Cfg) -> Report {
             let mut prev_lcid: u64 = 0;
             for s in c.history.steps.iter().filter(|s| s.peer == p) {
                 st.inc("runs_checked", 1);
+                if !s.results_given.is_empty() {
+                    st.inc("honest_runs_with_results", 1);
+                    // the honest host hands in only results of requests this peer issued for this
+                    // particle and has not answered yet: each of them has a call waiting for it
+                    if s.out.ret_code == 30000 {
+                        st.violation("C06", "pending-result-reported-unprocessed@honest-history", &format!("{} step {}: every result handed in answers a pending request, yet the run reports unprocessed results: {}", w.peers[p].name, s.idx, proj::trunc(&s.out.error_message, 160)), case, json!({"step": s.idx, "history": history_sample(c, 60)}));
+                    }
+                }
                 let Ok(reqs) = &s.out.requests else { continue };
                 for id in reqs.keys() {
                     if (*id as u64) <= max_id {
